@@ -24,7 +24,11 @@ Record obs_choose := {
 Inductive obs_op :=
 | ORemember (key : str) (expires : Z)
 | OAdvance (dt : Z)
-| OChoose (c : obs_choose).
+| OChoose (c : obs_choose)
+(* chooseProxyDialer: c holds the arguments and the final target / dialIp (oc_reroute unused);
+   route_to = outbound the routing rules answer; n_groups = len(c.outbounds);
+   final = Some index of the chosen group | None = error *)
+| ODial (c : obs_choose) (route_to n_groups : N) (final : option N).
 
 Record obs_case := { ob_mode : dial_mode; ob_now0 : Z; ob_ops : list obs_op }.
 
@@ -103,6 +107,53 @@ Definition check_choose (mode : dial_mode) (st : cp_state) (ievs mevs : list eve
            else true) n 3 3 in
   (e1 ++ e4 ++ e2 ++ e3, st', ievs ++ events_of_probe c (oc_probed c), mevs ++ events_of_probe c asked).
 
+Definition optN_eqb (a b : option N) : bool :=
+  match a, b with Some x, Some y => N.eqb x y | None, None => true | _, _ => false end.
+
+(* error sub-codes for a dial: 1.1 target 1.3 dial_ip 1.4 probe 1.5/1.6 caches 1.9 final outbound;
+   2.2 endpoint 2.3 final outbound;  3.x as for choose *)
+Definition check_dial (mode : dial_mode) (st : cp_state) (ievs mevs : list event) (n : N) (c : obs_choose)
+           (route_to n_groups : N) (final : option N)
+  : list (N * N * N) * cp_state * list event * list event :=
+  let is_ip := oracle_ip (oc_facts c) in
+  let dst := oc_dst c in
+  let dom := oc_domain c in
+  let '(o, fin, asked, st') := choose_proxy_dialer is_ip mode st (oc_outbound c) route_to dst dom (oc_key_a c)
+                                                   (oc_key_aaaa c) (oc_has_resolvers c) (oc_answer c) in
+  let in_range := fin <? n_groups in
+  let key := if d_is4 dst then oc_key_a c else oc_key_aaaa c in
+  let cls := classify is_ip dom in
+  let e1 :=
+      err (optN_eqb (if in_range then Some fin else None) final) n 1 9 ++
+      (if in_range then
+         err (str_eqb (o_target o) (oc_target c)) n 1 1 ++
+         err (eqb (o_dial_ip o) (oc_dial_ip c)) n 1 3
+       else []) ++
+      err (eqb asked (oc_probed c)) n 1 4 ++
+      err (eqb (existsb (str_eqb dom) (s_real st')) (oc_real_hit c)) n 1 5 ++
+      err (optZ_eqb (assoc_get dom (s_neg st')) (oc_neg c)) n 1 6 ++
+      err (Z.eqb (s_now st) (oc_now c)) n 1 7 in
+  let ik := knowledge_now neg_ttl ievs key dom (oc_now c) in
+  let mk := knowledge_now neg_ttl mevs key dom (s_now st) in
+  let sfin (k : knowledge) := spec_final_outbound is_ip mode (builtin_outbound (oc_outbound c)) (oc_outbound c) route_to cls k in
+  let e2 :=
+      match final with
+      | Some f =>
+          err (f =? sfin ik) n 2 3 ++
+          err (if endpoint_constrained is_ip mode (builtin_outbound (sfin ik)) cls ik
+               then opt_split_eqb (oc_target_split c)
+                                  (Some (spec_endpoint is_ip mode (builtin_outbound (sfin ik)) (d_ip dst) (d_port dst) cls ik))
+               else true) n 2 2
+      | None => err (negb (sfin ik <? n_groups)) n 2 3
+      end in
+  let e3 :=
+      err (fin =? sfin mk) n 3 4 ++
+      err (eqb (o_use_name o) (spec_use_name is_ip mode (builtin_outbound fin) cls mk)) n 3 1 ++
+      err (if endpoint_constrained is_ip mode (builtin_outbound fin) cls mk && literal_clean cls && dest_wf dst
+           then denotes (o_target o) (spec_endpoint is_ip mode (builtin_outbound fin) (d_ip dst) (d_port dst) cls mk)
+           else true) n 3 3 in
+  (e1 ++ e2 ++ e3, st', ievs ++ events_of_probe c (oc_probed c), mevs ++ events_of_probe c asked).
+
 Fixpoint check_ops (mode : dial_mode) (ops : list obs_op) (st : cp_state) (ievs mevs : list event) (n : N)
   : list (N * N * N) :=
   match ops with
@@ -112,6 +163,9 @@ Fixpoint check_ops (mode : dial_mode) (ops : list obs_op) (st : cp_state) (ievs 
   | OAdvance dt :: r => check_ops mode r (advance st dt) ievs mevs (n + 1)
   | OChoose c :: r =>
       let '(es, st', ievs', mevs') := check_choose mode st ievs mevs n c in
+      es ++ check_ops mode r st' ievs' mevs' (n + 1)
+  | ODial c rt ng fin :: r =>
+      let '(es, st', ievs', mevs') := check_dial mode st ievs mevs n c rt ng fin in
       es ++ check_ops mode r st' ievs' mevs' (n + 1)
   end.
 
@@ -145,6 +199,11 @@ Fixpoint sig_ops (mode : dial_mode) (ops : list obs_op) (st : cp_state) : list (
   | ORemember key e :: r => sig_ops mode r (remember_dns_knowledge st key e)
   | OAdvance dt :: r => sig_ops mode r (advance st dt)
   | OChoose c :: r => let '(s, st') := sig_choose mode st c in s :: sig_ops mode r st'
+  | ODial c rt ng fin :: r =>
+      let '(s, _) := sig_choose mode st c in
+      let '(_, f, _, st') := choose_proxy_dialer (oracle_ip (oc_facts c)) mode st (oc_outbound c) rt (oc_dst c) (oc_domain c)
+                                                 (oc_key_a c) (oc_key_aaaa c) (oc_has_resolvers c) (oc_answer c) in
+      (s ++ [1 + b2n (negb (f =? oc_outbound c)) + 2 * b2n (is_reserved f)]) :: sig_ops mode r st'
   end.
 
 Definition case_signature (c : obs_case) : list (list N) :=
